@@ -51,6 +51,8 @@ def spec_str(t):
 def render_type(t, inner):
     """C declarator printing: `inner` is the declarator built so far (name, or '' for an abstract declarator)."""
     k = t[0]
+    if k == "ell":                  # trailing ellipsis of a parameter list (always the last "parameter")
+        return "..."
     if k in ("base", "tmpl"):
         s = spec_str(t)
         return s + ((" " + inner) if inner else "")
@@ -84,7 +86,7 @@ def render_decl(d):
     if k in ("func", "method", "smethod"):
         ps = []
         for i, p in enumerate(d["params"]):
-            ps.append(render_type(p, f"a{i}" if d.get("pnames", True) else ""))
+            ps.append(render_type(p, f"a{i}" if d.get("pnames", True) and p[0] != "ell" else ""))
         head = d["name"] + "(" + ", ".join(ps) + ")" + ((" " + d["cvq"]) if d.get("cvq") else "")
         s = render_type(d["ret"], head) + ";"
         if k == "smethod":
@@ -157,6 +159,8 @@ def qualified_name(tu, d):
 
 def struct_str(t):
     k = t[0]
+    if k == "ell":
+        return "..."
     if k == "base":
         s = t[5]
         if t[4]:
@@ -191,6 +195,8 @@ def struct_str(t):
 
 def type_size(t):
     k = t[0]
+    if k == "ell":
+        return 1
     if k == "base":
         return 1 + (1 if t[2] else 0) + (1 if t[4] else 0) + (0 if t[5] == "int" else 1)
     if k == "tmpl":
@@ -220,8 +226,13 @@ def layers_of(t, acc=None):
     """feature signatures of a type: every (outer, inner) pair of adjacent constructors + base descriptions."""
     acc = set() if acc is None else acc
     k = t[0]
+    if k == "ell":
+        acc.add("ellipsis")
+        return acc
 
     def head(x):
+        if x[0] == "ell":
+            return "ellipsis"
         return x[0] if x[0] not in ("base", "tmpl") else ("tmpl" if x[0] == "tmpl" else "base")
     if k == "base":
         acc.add("base:" + t[5] + ("/" + t[2].replace(" ", "+") if t[2] else "") + ("/elab" if t[4] else "") +
@@ -267,6 +278,8 @@ def type_candidates(t):
     """single-step simplifications of a type (may be ill-formed; the reference compiler filters)."""
     out = []
     k = t[0]
+    if k == "ell":
+        return out
 
     def add(x):
         if x != t and x not in out:
@@ -372,6 +385,8 @@ def subterms(t):
     elif k == "tmpl":
         kids = [a for a in t[2] if a[0] != "int"]
     for c in kids:
+        if c[0] == "ell":
+            continue
         if c[0] != "fn":
             out.append(c)
         out.extend(subterms(c))
@@ -395,7 +410,8 @@ def decl_candidates(d):
         base = dict(d)
         # isolate one component
         for i in range(len(ps)):
-            add(dict(base, params=[ps[i]], ret=VOID, cvq="", virtual=False, pnames=True))
+            if ps[i][0] != "ell":
+                add(dict(base, params=[ps[i]], ret=VOID, cvq="", virtual=False, pnames=True))
         add(dict(base, params=[], cvq="", virtual=False, pnames=True))
         for i in range(len(ps)):
             add(dict(base, params=ps[:i] + ps[i + 1:]))
@@ -983,6 +999,60 @@ class DeclGen:
         self.decls.append(d)
         return d
 
+    def _simple(self, name, cv=""):
+        return ["base", name, cv, True, "", "int" if name == "int" else "builtin"]
+
+    def variadic_twins(self):
+        """pairs of function types that are identical (parameter names included) except for a trailing ellipsis:
+        function-pointer variables, free functions (declared after the late usings) and methods of one host"""
+        r = self.rng
+        pools = [[["ptr", "", self._simple("char", "const")]], [self._simple("int"), self._simple("double")],
+                 [self._simple("int"), ["ptr", "", self._simple("char", "const")]], [self._simple("long")],
+                 [["ptr", "", self._simple("void")], self._simple("unsigned int")]]
+        r.shuffle(pools)
+        self.late_twins = []
+
+        def pair(mk):
+            ps = pools.pop()
+            ret = r.choice([list(VOID), self._simple("int")])
+            order = [True, False] if r.random() < 0.5 else [False, True]
+            for ell in order:
+                self.nid += 1
+                mk(self.nid, copy.deepcopy(ret), copy.deepcopy(ps) + ([["ell"]] if ell else []))
+        pair(lambda k, ret, ps: self.decls.append(
+            {"id": k, "name": f"v_{k}", "kind": "var", "site": "global", "type": ["ptr", "", ["fn", ret, ps, ""]]}))
+        host = r.choice([h for h in self.hosts if not h.get("tparam")])["id"]
+        cvq = r.choice(["", "const"])
+        pair(lambda k, ret, ps: self.decls.append(
+            {"id": k, "name": f"m_{k}", "kind": "method", "site": host, "ret": ret, "params": ps, "pnames": True,
+             "cvq": cvq, "virtual": False}))
+        pair(lambda k, ret, ps: self.decls.append(
+            {"id": k, "name": f"f_{k}", "kind": "func", "site": "global", "ret": ret, "params": ps, "pnames": True,
+             "cvq": "", "virtual": False}))
+
+    def fn_template_args(self):
+        """template arguments that are function(-pointer) types whose parenthesised parameter list contains another
+        template-id followed by a comma"""
+        r = self.rng
+        tm = lambda a: ["tmpl", "na::Tm", [a], "", True, "tmpl/qual"]
+        df = lambda *a: ["tmpl", "na::Dflt", list(a), "", True, "tmpl/qual"]
+        ch = self._simple("char")
+        it = self._simple("int")
+        shapes = [df(["ptr", "", ["fn", it, [tm(it), ch], ""]]),
+                  df(tm(ch), ["ptr", "", ["fn", it, [df(it, ch), tm(ch)], ""]]),
+                  ["tmpl", "na::Tm", [["ptr", "", ["fn", list(VOID), [tm(it), df(ch), it], ""]], ["int", "2"]], "", True,
+                   "tmpl/qual"],
+                  df(["ptr", "", ["fn", list(VOID), [["lref", tm(it)], ["ptr", "", df(tm(ch))], it], ""]])]
+        for t in r.sample(shapes, 2):
+            self.nid += 1
+            k = self.nid
+            kind = r.choice(["func", "func", "var"])
+            if kind == "var":
+                self.decls.append({"id": k, "name": f"v_{k}", "kind": "var", "site": "global", "type": ["ptr", "", t]})
+            else:
+                self.decls.append({"id": k, "name": f"f_{k}", "kind": "func", "site": "global", "ret": list(VOID),
+                                   "params": [r.choice([["ptr", "", t], t])], "pnames": True, "cvq": "", "virtual": False})
+
     def new_decl(self, site_id, early=False):
         r = self.rng
         self.nid += 1
@@ -1034,6 +1104,8 @@ class DeclGen:
         h = self.new_tparam_host(k + len(shapes))
         for _ in range(5):
             self.new_tparam_decl(h["id"])
+        self.variadic_twins()
+        self.fn_template_args()
         self.u.apply_late()
         for _ in range(n_glob - n_early):
             self.new_decl("global")
